@@ -817,8 +817,76 @@ def c19_rating_rules(res, rng):
             return
 
 
+def c19_source_diff(res):
+    """The five model files are five copies of one text outside _compute.  Where a copy has drifted, the cross-class
+    comparisons are concentrated: this is a search heuristic (how hard to hammer), never a failure by itself —
+    a harmless edit of one copy is not a violation.  The comparison is on the syntax tree: docstrings dropped, class names
+    unified, local variables renamed by order of first binding."""
+    import ast
+    import textwrap
+
+    def norm(cls_names, fn):
+        try:
+            node = ast.parse(textwrap.dedent(inspect.getsource(fn))).body[0]
+        except (OSError, TypeError, SyntaxError, IndexError):
+            return None
+        for sub in ast.walk(node):
+            if isinstance(sub, (ast.FunctionDef, ast.Lambda)) and not isinstance(sub, ast.Lambda):
+                b = sub.body
+                if b and isinstance(b[0], ast.Expr) and isinstance(getattr(b[0], "value", None), ast.Constant) \
+                        and isinstance(b[0].value.value, str):
+                    sub.body = b[1:] or [ast.Pass()]
+        local = {}
+        for sub in ast.walk(node):
+            if isinstance(sub, ast.Name) and isinstance(sub.ctx, ast.Store) and sub.id not in local:
+                local[sub.id] = "_v%d" % len(local)
+        for sub in ast.walk(node):
+            if isinstance(sub, ast.Name):
+                if sub.id in local:
+                    sub.id = local[sub.id]
+                elif sub.id in cls_names:
+                    sub.id = cls_names[sub.id]
+            elif isinstance(sub, ast.Attribute) and sub.attr in cls_names:
+                sub.attr = cls_names[sub.attr]
+            elif isinstance(sub, ast.Constant) and isinstance(sub.value, str):
+                for n in sorted(cls_names, key=len, reverse=True):
+                    sub.value = sub.value.replace(n, cls_names[n])
+        return ast.dump(node, annotate_fields=False, include_attributes=False)
+    differing = []
+    compared = 0
+    cls_maps = {}
+    for k in KINDS:
+        base = MODEL_CLS[k].__name__
+        cls_maps[k] = {base: "M", base + "Rating": "R", base + "TeamRating": "T"}
+    skip = {"__str__", "__repr__", "_compute"}
+    for label, table in (("", MODEL_CLS), ("rating.", RATING_CLS)):
+        meths = sorted(set().union(*[{n for n, v in vars(table[k]).items() if inspect.isfunction(v)} for k in KINDS]) - skip)
+        for meth in meths:
+            texts = {k: norm(cls_maps[k], vars(table[k]).get(meth)) for k in KINDS}
+            compared += 1
+            if len(set(texts.values())) != 1:
+                differing.append(label + meth)
+    res.notes.append("syntax-tree comparison of the five copies outside _compute: %d methods compared, drifted: %s"
+                     % (compared, differing or "none"))
+    res.count("shared_methods_compared", compared)
+    res.count("drifted_shared_methods", len(differing))
+    return differing
+
+
 def c19(res):
     rng = random.Random(res.seed)
+    drift = c19_source_diff(res)
+    boost = 4 if drift else 1
+    _size = core.size
+    core_size = lambda r, q, t: _size(r, q, t) * boost      # noqa: E731
+    globals()["size"] = core_size
+    try:
+        c19_body(res, rng)
+    finally:
+        globals()["size"] = _size
+
+
+def c19_body(res, rng):
     c19_signatures(res)
     c19_rating_rules(res, rng)
     for _ in range(size(res, 400, 3000)):
